@@ -31,11 +31,11 @@ Definition f_meta (l : list str) : option (meta * list str) :=
   | _ => None
   end.
 
-Fixpoint parse_expr (fuel : nat) (l : list str) : option (expr * list str) :=
+Fixpoint parse_expr_in (pool : list expr) (fuel : nat) (l : list str) : option (expr * list str) :=
   match fuel with
   | 0 => None
   | S f =>
-    let sub := parse_expr f in
+    let sub := parse_expr_in pool f in
     let fix subs (n : nat) (l : list str) : option (list expr * list str) :=
         match n with
         | 0 => Some ([], l)
@@ -52,12 +52,14 @@ Fixpoint parse_expr (fuel : nat) (l : list str) : option (expr * list str) :=
       if tk [86] t then match f_list r with Some (vs, r1) => Some (EValues vs, r1) | None => None end
       else if tk [68] t then match f_list r with Some (vs, r1) => Some (EValuesDescribed vs, r1) | None => None end
       else if tk [84] t then match f_list r with Some (vs, r1) => Some (EStyledValuesDescribed vs, r1) | None => None end
-      else if tk [83] t then
+      else if tk [83] t || tk [83;72] t then
         match f_meta r with
         | Some (m, r1) => match f_rawlist r1 with Some (vs, r2) => Some (EStatic m vs, r2) | None => None end
         | None => None
         end
       else if tk [77] t then match r with m :: r1 => Some (EMessage m, r1) | [] => None end
+      else if tk [77;70] t then match r with pre :: suf :: arg :: r1 => Some (EMessage (pre ++ arg ++ suf), r1) | _ => None end   (* ActionMessage(pre%vsuf, arg) *)
+      else if tk [82;69;70] t then match r with i :: r1 => match undec i with Some k => match nth_error pool k with Some e => Some (e, r1) | None => None end | None => None end | [] => None end   (* REF i: the i-th action of the pool *)
       else if tk [67] t then Some (ECtx, r)
       else if tk [70] t then lst EFilter r
       else if tk [82] t then lst ERetain r
@@ -89,6 +91,8 @@ Fixpoint parse_expr (fuel : nat) (l : list str) : option (expr * list str) :=
       else if tk [76;73] t then match r with d :: r1 => un (EList d) r1 | [] => None end
       else if tk [85;76] t then match r with d :: r1 => un (EUniqueList d) r1 | [] => None end
       else if tk [80;84] t then lst EPartition r
+      else if tk [83;69] t then match r with k :: v :: r1 => un (ESetenv k v) r1 | _ => None end
+      else if tk [71;69] t then match r with k :: r1 => Some (EGetenv k, r1) | [] => None end
       else if tk [66] t then
         match r with
         | n :: r1 => match undec n with
@@ -102,6 +106,8 @@ Fixpoint parse_expr (fuel : nat) (l : list str) : option (expr * list str) :=
     end
   end.
 
+Definition parse_expr := parse_expr_in [].
+
 Record algcase := mkAlg { al_ci : bool; al_ctx : ctx; al_e : expr }.
 Definition parse_alg (c : list str) : option algcase :=
   match c with
@@ -111,7 +117,7 @@ Definition parse_alg (c : list str) : option algcase :=
       match f_list r1 with
       | Some (parts, r2) =>
         match parse_expr (S (length r2)) r2 with
-        | Some (e, []) => Some (mkAlg (f_true ci) (mkCtx v args parts) e)
+        | Some (e, []) => Some (mkAlg (f_true ci) (mkCtx v args parts []) e)
         | _ => None
         end
       | None => None
